@@ -2340,7 +2340,8 @@ class Planner:
                 self.must_succeed.append(self.next - 1)
                 if g is not None and good[0].endswith("FixedIndex"):
                     # the interned index inside an expression of the pool
-                    g = self.call("ufl.classes.MultiIndex", ["t", self.ref(g)])
+                    g = self.call("ufl.classes.MultiIndex", ["t", self.ref(g)], keep_failed=True)
+                    self.must_succeed.append(self.next - 1)
                 if g is not None and isinstance(self.node.slots.get(g), Expr):
                     pool.append(g)
                     try:
